@@ -20,6 +20,7 @@ the problem classes.
 """
 
 from qubovert.utils import Conversions, PUBOMatrix
+from itertools import product
 
 
 __all__ = 'Problem',
@@ -245,8 +246,20 @@ class Problem(Conversions):
         all_solutions = kwargs.pop("all_solutions", False)
         qubo = self.to_qubo(*args, **kwargs)
         sol = qubo.solve_bruteforce(all_solutions)
+        # the solver only reports the variables that the QUBO depends on. A
+        # variable that it does not depend on is free, so fill it in.
+        n = self.num_binary_variables
         if all_solutions:
-            return [self.convert_solution(x) for x in sol]
+            res = []
+            for x in sol:
+                free = [i for i in range(n) if i not in x]
+                for vals in product((0, 1), repeat=len(free)):
+                    y = dict(x)
+                    y.update(zip(free, vals))
+                    res.append(self.convert_solution(y))
+            return res
+        for i in range(n):
+            sol.setdefault(i, 0)
         return self.convert_solution(sol)
 
     def to_pubo(self, *args, **kwargs):
